@@ -23,7 +23,7 @@ theorem windows_correct_partial {pt : PT} (hs : Stage1 pt) (params : List (Strin
     (hprog : createProgram pt params mm cm [] = .ok (some prog))
     (hden : denoteTop pt params mm cm = .ok P) (hpos : prog.allPos) :
     prog.windows.Perm P.windows :=
-  (createProgram_rel hs params mm cm prog P hprog hden hpos).2.2
+  (createProgram_rel hs params mm cm prog P hprog hden hpos).2.2.1
 
 /-- all windows of a pulse lie inside `[0, duration]` -/
 def Inside (P : Pulse) : Prop := ∀ w ∈ P.windows, 0 ≤ w.2.1 ∧ w.2.1 + w.2.2 ≤ P.dur
